@@ -81,6 +81,44 @@ impl<'a> Ck<'a> {
             self.rep.sample(format!("{} {} radix {} -> {}", self.fam.name, iv.show(), radix, show_bytes(&exp)));
         }
     }
+    /// the same value under a format that requires a sign: `+` for non-negative values, buffer of
+    /// the documented size
+    #[cfg(feature = "format")]
+    fn check_plus<T: Int>(&mut self, v: T, radix: u32) {
+        let iv = v.to_ival();
+        let mut exp = numeral(iv, radix);
+        if !iv.neg {
+            exp.insert(0, b'+');
+        }
+        self.fam.states += 1;
+        self.fam.cases += 1;
+        self.fam.nontrivial += 1;
+        self.fam.calls += 1;
+        let size = buffer_size_radix_plus::<T>(radix);
+        let key = format!("{}|write|r{}|plus|{}", T::NAME, radix, iv.show());
+        self.g.all().fill(CANARY);
+        let cap = self.g.capacity();
+        let res = {
+            let buf: &mut [u8] = self.g.tail(size);
+            guarded(|| write_radix_plus(v, radix, buf).to_vec())
+        };
+        match res {
+            Err(p) => {
+                self.rep.violation(key, format!("C03 write {} {} radix {} (required sign) with the documented buffer of {} bytes panicked: {}", T::NAME, iv.show(), radix, size, p));
+                return;
+            }
+            Ok(bytes) => {
+                if bytes != exp {
+                    self.rep.violation(key, format!("C03 write {} {} radix {} (required sign) = {:?} ; expected {:?}", T::NAME, iv.show(), radix, show_bytes(&bytes), show_bytes(&exp)));
+                    return;
+                }
+            }
+        }
+        let all = self.g.all();
+        if all[..cap - size].iter().any(|&b| b != CANARY) {
+            self.rep.violation(key, format!("C03 write {} {} radix {} (required sign): bytes outside the {}-byte buffer were modified", T::NAME, iv.show(), radix, size));
+        }
+    }
     fn done(self) {
         self.fam.finish();
     }
@@ -141,6 +179,8 @@ fn run_type<T: Int>(rep: &Report, cli: &Cli) {
             if radix == 10 {
                 c.check(v, 10, true);
             }
+            #[cfg(feature = "format")]
+            c.check_plus(v, radix);
         }
         c.done();
     });
@@ -182,14 +222,20 @@ fn replay(rep: &Report, key: &str) {
     let neg = p[4].starts_with('-');
     let mag: u128 = p[4].trim_start_matches('-').parse().unwrap();
     let iv = IVal { neg, mag };
-    fn go<T: Int>(rep: &Report, name: &str, iv: IVal, radix: u32, d: bool) {
+    let plus = p[3] == "plus";
+    fn go<T: Int>(rep: &Report, name: &str, iv: IVal, radix: u32, d: bool, plus: bool) {
         if T::NAME == name {
             let mut c = Ck::new(rep, "replay");
-            c.check(T::from_ival(iv).unwrap(), radix, d);
+            if plus {
+                #[cfg(feature = "format")]
+                c.check_plus(T::from_ival(iv).unwrap(), radix);
+            } else {
+                c.check(T::from_ival(iv).unwrap(), radix, d);
+            }
             c.done();
         }
     }
-    harness::for_each_int_type!(go, rep, p[0], iv, radix, via_default);
+    harness::for_each_int_type!(go, rep, p[0], iv, radix, via_default, plus);
 }
 
 fn main() {
